@@ -351,6 +351,19 @@ def evaluate_deltas(expr, target_idx: str = None):
         return expr
 
 
+def _indices_on_single_object(term) -> list[Index]:
+    """
+    Returns the indices that occur on a single object of the term, i.e., the
+    indices evaluate_deltas treats as target indices of the term according
+    to the Einstein sum convention.
+    """
+    counter = {}
+    for obj in Mul.make_args(term):
+        for s in obj.atoms(Index):
+            counter[s] = counter.get(s, 0) + 1
+    return [s for s, n in counter.items() if n == 1]
+
+
 def wicks(expr, rules: Rules = None, simplify_kronecker_deltas: bool = False):
     """
     Evaluates Wicks theorem in the provided expression only returning fully
@@ -402,7 +415,21 @@ def wicks(expr, rules: Rules = None, simplify_kronecker_deltas: bool = False):
             result = _contract_operator_string(op_string)
             result = (Mul(*c_part) * result).expand()
             if simplify_kronecker_deltas:
-                result = evaluate_deltas(result)
+                # The contraction of two general indices p and q gives
+                # delta_{pq} * delta_{qi}, i.e., q occurs on two deltas and
+                # the Einstein sum convention applied to the contracted term
+                # identifies a target index q as contracted index.
+                # -> additionally protect the target indices of the term
+                #    before the contraction
+                target = _indices_on_single_object(expr)
+                result = Add(*[
+                    evaluate_deltas(
+                        term, target_idx=target + [
+                            s for s in _indices_on_single_object(term)
+                            if s not in target
+                        ]
+                    ) for term in Add.make_args(result)
+                ])
     else:  # neither add, Mul, NO or Operator -> maybe a number or a tensor
         result = expr
 
